@@ -2,6 +2,7 @@
 From VF Require Import Common.Base.
 From VF Require C13.ShardRW C13.Proofs C13.PoolModel C13.PoolHist C13.ProofsPool C13.Check.
 From VF Require C13.Dequeue C13.ProofsDequeue C13.ProofsDequeueLink.
+From VF Require C13.Chain C13.ProofsChainRing C13.ProofsChain C13.ProofsChainSizes C13.ProofsChainLink C13.DeqCheck Common.Hist.
 
 (* syncx.RWMutex: for every number k >= 1 of shards, every number of threads and every schedule of the
    per-shard acquisition / release steps: never a writer past its last acquire together with a reader
@@ -128,6 +129,116 @@ Theorem C13_dequeue_poolmodel : forall n T h0 sched, ProofsDequeue.good_params n
   ProofsDequeueLink.poolmodel_run [] (map snd (Dequeue.glog st)) (Dequeue.abs st).
 Proof. exact ProofsDequeueLink.dequeue_refines_poolmodel_list. Qed.
 
+(* poolChain (poolqueue.go): the doubly linked list of poolDequeue rings of doubling size, as a small-step system
+   with the same granularity - every ring is one complete Dequeue.v machine that evolves by Dequeue.step only;
+   c.tail, the next / prev links and the size counter are shared words, every atomic load / store / CAS / add of
+   poolChain.pushHead (initialisation, growing: the ring of size min(2n, 2^30) is linked before anything is
+   pushed into it), popHead (walking back along prev) and popTail (load next BEFORE popping, CAS tail forward
+   when the ring is drained for good, clear prev) is one step - for EVERY initial ring size 2^k (k <= 30), every
+   number of thieves, every start index of the first ring and EVERY schedule of one producer and the thieves
+   ([creach]: reachable from the zero chain or from a chain whose first ring exists):
+   (A) atomicity: the chain calls in the order of their linearization points (pushHead: the fetch-add of the
+   ring push; popHead/popTail: the successful ring CAS; popHead's empty answer: the load of d.prev = nil, or the
+   call itself when c.head is nil) form a legal history of the sequential deque Chain.cseq_step ending in the
+   abstract contents cabs = the rings' contents concatenated; every completed call returned what was decided at
+   its linearization point and owns a distinct log entry; pending pops are logged with the value they will return.
+   In Chain.cseq_step pushHead always succeeds, popHead answers empty only on the empty deque, and popTail MAY
+   answer empty spuriously (no effect): C13_chain_poptail_empty_refuted shows that the strict reading is false. *)
+Theorem C13_chain_atomic : forall s, ProofsChain.creach s ->
+  Chain.cseq_run [] (map snd (Chain.clog s)) (Chain.cabs s) /\
+  (forall t e k, In (t, e, k) (Chain.ctrace s) -> nth_error (Chain.clog s) k = Some (t, e)) /\
+  Permutation (map snd (Chain.ctrace s) ++ Chain.cpending_k s) (seq 0 (length (Chain.clog s))) /\
+  NoDup (map snd (Chain.ctrace s)) /\
+  ProofsChain.cpending_logged s.
+Proof. exact ProofsChain.chain_linearizable. Qed.
+(* the log is append-only and a step only appends entries naming the thread that takes it, so every
+   linearization point lies between the invocation and the response of its call (no invariant needed) *)
+Theorem C13_chain_lp_inside_call : forall s l,
+  exists es, Chain.clog (Chain.cstep s l) = Chain.clog s ++ es /\
+             Forall (fun te => fst te = ProofsChain.thread_of l) es.
+Proof. exact ProofsChain.clog_step. Qed.
+(* (B) ownership: values returned by completed pops + values of pops past their linearization point + the contents
+   are a permutation of the values of the completed pushes: every pushed value is popped at most once (by
+   exactly one of popHead / popTail, from whichever ring), no value is invented, none is lost *)
+Theorem C13_chain_ownership : forall s, ProofsChain.creach s ->
+  Permutation (Dequeue.popped (Chain.ctrace s) ++ ProofsChain.cpending_vals s ++ Chain.cabs s)
+              (Dequeue.pushed (Chain.ctrace s)).
+Proof. exact ProofsChain.chain_ownership. Qed.
+(* (C) dropping: every ring c.tail has been moved past, and the ring a thief is about to move c.tail past with its
+   CAS, is empty, already linked to its successor (so it is not c.head and is never pushed to again: it stays
+   empty) - no value is lost by dropping; c.tail points into the list, c.head is the youngest ring *)
+Theorem C13_chain_drop_safe : forall s, ProofsChain.creach s ->
+  (forall t i, Chain.ctail s = Some t -> i < t -> ProofsChain.droppable s i) /\
+  (forall j d d2, nth_error (Chain.cthieves s) j = Some (Chain.KCas d d2) -> d2 = S d /\ ProofsChain.droppable s d) /\
+  (forall t, Chain.ctail s = Some t -> t < length (Chain.rings s)) /\
+  Chain.chead s = match length (Chain.rings s) with O => None | S m => Some m end.
+Proof. exact ProofsChain.chain_drop_safe. Qed.
+(* growing: the push into the freshly linked ring (whose boolean result the code ignores) never fails *)
+Theorem C13_chain_push_never_lost : forall s v, ProofsChain.creach s -> Chain.cprod s <> Chain.CLost v.
+Proof. exact ProofsChain.chain_push_never_lost. Qed.
+(* every ring of the chain satisfies the ring invariant of ProofsDequeue.v (slot ownership, no overflow, live
+   window ...), has a size 2^k <= 2^30, and its links are those of a list *)
+Theorem C13_chain_rings_are_dequeues : forall s i r, ProofsChain.creach s -> nth_error (Chain.rings s) i = Some r ->
+  ProofsDequeue.Core (Chain.rq r) /\ ProofsChainRing.pow2size (Dequeue.sz (Chain.rq r)) /\
+  length (Dequeue.thieves (Chain.rq r)) = length (Chain.cthieves s) /\
+  (Chain.rnext r = None \/ Chain.rnext r = Some (S i)) /\
+  (Chain.rprev r = None \/ exists i', i = S i' /\ Chain.rprev r = Some i').
+Proof. exact ProofsChain.chain_rings_are_dequeues. Qed.
+(* sizes: ring 0 has the initial size (8 in the code), ring i+1 has Chain.grow (size of ring i) = min(2 * size, 2^30) *)
+Theorem C13_chain_sizes : forall s, ProofsChain.creach s ->
+  (forall r, nth_error (Chain.rings s) 0 = Some r -> Dequeue.sz (Chain.rq r) = Chain.cn0 s) /\
+  (forall i r r', nth_error (Chain.rings s) i = Some r -> nth_error (Chain.rings s) (S i) = Some r' ->
+     Dequeue.sz (Chain.rq r') = Chain.grow (Dequeue.sz (Chain.rq r))).
+Proof. exact ProofsChainSizes.chain_sizes. Qed.
+(* the strict specification (popTail answers empty only when the chain is empty) is FALSE of the faithful model:
+   a reachable state s1 with thief 0 idle and a continuation [call] during which thief 0 runs exactly one
+   popTail (it is not idle at any proper prefix), the chain is non-empty after every prefix, and that popTail
+   returns (nil,false) *)
+Theorem C13_chain_poptail_empty_refuted :
+  exists s1 call,
+    ProofsChain.creach s1 /\ nth_error (Chain.cthieves s1) 0 = Some Chain.K0 /\
+    Chain.ctrace s1 = [(0, Dequeue.EPush 7 true, 0)] /\
+    Forall (fun m => Chain.cabs (Chain.crun s1 (firstn m call)) <> []) (seq 0 (S (length call))) /\
+    (forall m, S m < length call -> nth_error (Chain.cthieves (Chain.crun s1 (firstn (S m) call))) 0 <> Some Chain.K0) /\
+    nth_error (Chain.cthieves (Chain.crun s1 call)) 0 = Some Chain.K0 /\
+    map (fun c => fst c) (Chain.ctrace (Chain.crun s1 call)) =
+      [(0, Dequeue.EPush 7 true); (0, Dequeue.EPush 8 true); (2, Dequeue.EPopTail (Dequeue.Got (Some 7)));
+       (1, Dequeue.EPopTail Dequeue.Empty)].
+Proof. exact ProofsChain.chain_poptail_empty_not_exact. Qed.
+(* link to PoolModel: the chain's sequential steps are PoolModel's list operations on a chain of blocks; a popTail
+   that answers empty is a steal attempt that finds nothing (allowed by PoolModel's oracle in every state) *)
+Theorem C13_chain_poolmodel : forall s, ProofsChain.creach s ->
+  ProofsChainLink.chain_poolmodel_run [] (map snd (Chain.clog s)) (Chain.cabs s).
+Proof. exact ProofsChainLink.chain_refines_poolmodel_list. Qed.
+(* the checker that judges the recorded concurrent rounds decides linearizability w.r.t. the list deque *)
+Theorem C13_deque_lin_check_ok : forall h, DeqCheck.deque_lin_check h = true <->
+  Hist.linearizable (list nat) DeqCheck.qcall DeqCheck.qret DeqCheck.q_step [] h.
+Proof. exact DeqCheck.deque_lin_check_correct. Qed.
+
+(* non-vacuity of the chain theorems: reachable states exist for the code's initial size 8 and for a first ring
+   started just below 2^32; a run on rings of 2 and 4 slots in which the third push overflows into a second ring,
+   thieves drain the first ring, the next popTail drops it (c.tail moves to ring 1, prev is cleared) and takes 3
+   from the second ring, and popHead then finds the chain empty *)
+Example C13_chain_nonvacuous :
+  ProofsChain.creach (Chain.cinit 8 3) /\ ProofsChain.creach (Chain.cinit_at 8 2 4294967295) /\
+  (let push v s := DeqCheck.csettle_p 64 (Chain.cstep s (Dequeue.LPush v)) in
+   let steal s := DeqCheck.csettle_t 64 (Chain.cstep s (Dequeue.LThief 0)) in
+   let pop s := DeqCheck.csettle_p 64 (Chain.cstep s Dequeue.LPop) in
+   let s := pop (steal (steal (steal (push 3 (push 2 (push 1 (Chain.cinit 2 1))))))) in
+   map (fun c => snd (fst c)) (Chain.ctrace s) =
+     [Dequeue.EPush 1 true; Dequeue.EPush 2 true; Dequeue.EPush 3 true;
+      Dequeue.EPopTail (Dequeue.Got (Some 1)); Dequeue.EPopTail (Dequeue.Got (Some 2));
+      Dequeue.EPopTail (Dequeue.Got (Some 3)); Dequeue.EPopHead Dequeue.Empty] /\
+   map (fun r => Dequeue.sz (Chain.rq r)) (Chain.rings s) = [2; 4]%Z /\
+   Chain.ctail s = Some 1 /\ Chain.chead s = Some 1 /\ Chain.cabs s = [] /\ Chain.csize s = 0%Z /\
+   map Chain.rprev (Chain.rings s) = [None; None] /\ map Chain.rnext (Chain.rings s) = [Some 1; None]).
+Proof.
+  assert (H8 : ProofsChainRing.pow2size 8) by (exists 3%Z; repeat split; easy).
+  split; [exact (ProofsChain.cr_zero 8 3 [] H8)|].
+  split; [refine (ProofsChain.cr_at 8 2 4294967295 [] H8 _); rewrite ProofsDequeue.M32_val; split; easy|].
+  vm_compute. repeat split; reflexivity.
+Qed.
+
 (* non-vacuity of the dequeue theorems: a ring of 2 whose last block producer and thief race for (one
    wins, the other answers empty), a push that fails until the thief releases the slot, and a run across
    the 2^32 wrap are the Examples at the end of ProofsDequeue.v; here: admissible parameters exist *)
@@ -179,3 +290,13 @@ Print Assumptions C13_dequeue_push_fail_reason.
 Print Assumptions C13_dequeue_ghost_free.
 Print Assumptions C13_dequeue_word.
 Print Assumptions C13_dequeue_poolmodel.
+Print Assumptions C13_chain_atomic.
+Print Assumptions C13_chain_lp_inside_call.
+Print Assumptions C13_chain_ownership.
+Print Assumptions C13_chain_drop_safe.
+Print Assumptions C13_chain_push_never_lost.
+Print Assumptions C13_chain_rings_are_dequeues.
+Print Assumptions C13_chain_sizes.
+Print Assumptions C13_chain_poptail_empty_refuted.
+Print Assumptions C13_chain_poolmodel.
+Print Assumptions C13_deque_lin_check_ok.
